@@ -70,6 +70,17 @@ class TSet(Ty):
         return "Set[%r]" % (self.elem,)
 
 
+class TPyDict(Ty):
+    """a python dict with a fixed set of string keys (configuration dictionaries): values are symbolic of the
+    given type, or the given concrete python value"""
+
+    def __init__(self, fields):
+        self.fields = dict(fields)
+
+    def __repr__(self):
+        return "PyDict[%s]" % ",".join(sorted(self.fields))
+
+
 class TObj(Ty):
     """Reference to an instance of a declared class (python-level record on the symbolic heap)."""
 
@@ -101,14 +112,22 @@ def sort(ty):
     elif isinstance(ty, TList):
         s = z3.SeqSort(sort(ty.elem))
     elif isinstance(ty, TTuple):
-        dt = z3.Datatype("T_" + _mangle(ty))
-        dt.declare("mk", *[("f%d" % i, sort(e)) for i, e in enumerate(ty.elems)])
+        m = _mangle(ty)
+        dt = z3.Datatype("T_" + m)
+        dt.declare("mk_" + m, *[("f%d_%s" % (i, m), sort(e)) for i, e in enumerate(ty.elems)])
         s = dt.create()
+        s.mk = s.constructor(0)          # constructor / accessor names are unique per type (SMT-LIB has one namespace)
     elif isinstance(ty, TOpt):
-        dt = z3.Datatype("O_" + _mangle(ty))
-        dt.declare("none")
-        dt.declare("some", ("val", sort(ty.elem)))
+        m = _mangle(ty)
+        dt = z3.Datatype("O_" + m)
+        dt.declare("none_" + m)
+        dt.declare("some_" + m, ("val_" + m, sort(ty.elem)))
         s = dt.create()
+        s.none = s.constructor(0)()
+        s.some = s.constructor(1)
+        s.is_none = s.recognizer(0)
+        s.is_some = s.recognizer(1)
+        s.val = s.accessor(1, 0)
     elif isinstance(ty, TDict):
         # a dict value is the map  key -> Option(value); its insertion-ordered key sequence is the uninterpreted
         # function dkeys_<T>(map), constrained at every operation site (see speclib.dict_store / dict_delete)
